@@ -390,6 +390,10 @@ def canon_warnings(ws, shifts):
     for w in ws:
         sheet = "choices" if "choices" in w.lower() or "choice " in w.lower() else "survey"
         w = re.sub(r"'type': '[^']*'", "'type': *", w)  # the echo of the type cell is not kind/subject/row
+        # the languages named by the invalid-code warning are a set of subjects: their order follows column order
+        m = re.match(r"(The following language declarations do not contain valid machine-readable codes: )(.*?)(\. Learn more.*)$", w, re.S)
+        if m:
+            w = m.group(1) + ", ".join(sorted(m.group(2).split(", "))) + m.group(3)
         out.append(ROW_TOK.sub(lambda m: f"[row : {unshift(int(m.group(1)), shifts, sheet)}]", w))
     return sorted(out)
 
